@@ -251,8 +251,20 @@ def _evaluate(case, sc, loop_mp):
             for perm in list(itertools.permutations(roots))[::5]:
                 check("stdin:" + " ".join(perm), ["--stdin"], env0, "stdin", stdin=("\n".join(perm) + "\n").encode())
                 transitions += 1
-            for sub in (("r1", "r2", "r3"), ("r3", "r1", "r2"), ("r2", "r3", "r1")):
-                pass
+            # input paths that are not valid UTF-8, contain blanks or a trailing blank: as arguments and on stdin
+            odd = [sc.path("r5 x").decode(), os.fsdecode(sc.path("r6") + b"\xff"), sc.path("r7 ").decode()]
+            for i, d in enumerate(odd):
+                os.makedirs(C.b(d), exist_ok=True)
+                with open(os.path.join(C.b(d), b"odd%d" % i), "wb") as f:
+                    f.write(b"content of the odd roots")
+            e_odd, odd_base = run(sc, roots + odd, env0)
+            if e_odd:
+                viol.append({"kind": "run_failed", "what_varied": "odd_root_names", "detail": "roots %r as arguments: %s" % (odd, e_odd)})
+            else:
+                saved, base = base, odd_base
+                check("stdin:odd_root_names", ["--stdin"], env0, "stdin", stdin=b"\n".join(C.b(x) for x in roots + odd) + b"\n")
+                base = saved
+                transitions += 1
         elif case["kind"] == "stdin_child":
             base_roots = roots_of(case["tree"])
             data = ("\n".join(base_roots) + "\n").encode()
